@@ -1,7 +1,8 @@
 (* C11 - strip/fan expansion and polylist/polygons triangulation preserve geometry and winding.
    Statements only; proofs are in Proofs/Strips.v and Proofs/Triangulate.v.  The strip / fan
-   theorems are about the definitions of Gen/Strips.v, regenerated from collada/triangleset.py
-   on every build.
+   theorems are about the definitions of Gen/Strips.v, the load / triangulation / per-polygon /
+   bound theorems about those of Gen/Triangulate.v; both files are regenerated from
+   collada/triangleset.py and collada/polylist.py on every build.
 
    Rows: one row = the indices of all inputs of one vertex of the primitive.  All functions are
    polymorphic in the row type, so "every input's index is carried along" and "normals and
@@ -9,7 +10,7 @@
    label theorems: whatever the rows contain, the result is the label-level result read in the
    rows (at_rows). *)
 From Coq Require Import List ZArith Arith.
-From PC Require Import Base.Outcome Base.Py Base.PySlice Gen.Strips Model.Strips Model.Triangulate
+From PC Require Import Base.Outcome Base.Py Base.PySlice Base.NpProg Gen.Strips Gen.Triangulate Model.Strips Model.Triangulate
                        Proofs.Strips Proofs.Triangulate.
 Import ListNotations.
 Local Open Scope nat_scope.
@@ -56,12 +57,18 @@ Theorem C11_expand_count : forall kd n, length (expand_spec kd n) = n - 2.
 Proof. exact expand_spec_length. Qed.
 Print Assumptions C11_expand_count.
 
-(* every <p> is expanded on its own and the results are concatenated in document order *)
-Theorem C11_multi_p : forall (A : Type) (d : A) kd k (ps : list (list A)),
-  k > 0 -> ps <> [] -> Forall (fun p => length p mod k = 0) ps ->
-  load_expand kd k ps = Ok (concat (map (p_triangles d kd k) ps)).
+(* every <p> is expanded on its own and the results are concatenated in document order
+   (iteration order, reshape width max_offset+1 and concatenation order are the generated ones) *)
+Theorem C11_multi_p : forall (A : Type) (d : A) kd max_offset (ps : list (list A)),
+  ps <> [] -> Forall (fun p => length p mod (S max_offset) = 0) ps ->
+  load_expand kd max_offset ps = Ok (concat (map (p_triangles d kd (S max_offset)) ps)).
 Proof. exact @load_expand_multi_p. Qed.
 Print Assumptions C11_multi_p.
+
+(* _indexExtendFunctions sends each tag to its own expansion *)
+Theorem C11_load_dispatch : ext_of KStrips = EStrip /\ ext_of KFans = EFan.
+Proof. split; reflexivity. Qed.
+Print Assumptions C11_load_dispatch.
 
 Theorem C11_rows_per_p : forall (A : Type) k (p : list A),
   k > 0 -> length p mod k = 0 -> length (chunk k p) = length p / k.
@@ -85,16 +92,37 @@ Theorem C11_triangulate_count : forall (A : Type) vc (rows : list A),
 Proof. exact @tri_spec_length. Qed.
 Print Assumptions C11_triangulate_count.
 
-(* Polygon.triangles() of every polygon, concatenated, is the whole-primitive triangulation *)
+(* Polygon.triangles() of every polygon (generated subscripts), concatenated, is the whole-primitive
+   triangulation (generated clears and gathers); no subscript is ever out of range *)
 Theorem C11_per_polygon_agrees : forall (A : Type) vc (rows : list A),
   length rows = total vc ->
-  triangleset vc rows = Ok (concat (map poly_triangles (polygon_rows vc rows))).
+  triangleset vc rows = omap (@concat _) (omapM poly_triangles (polygon_rows vc rows)).
 Proof. intros A vc rows H. rewrite per_polygon_is_spec. apply triangleset_spec. exact H. Qed.
 Print Assumptions C11_per_polygon_agrees.
 
-Theorem C11_polygon_is_fan : forall (A : Type) (poly : list A), poly_triangles poly = fan_of poly.
+Theorem C11_polygon_is_fan : forall (A : Type) (poly : list A), poly_triangles poly = Ok (fan_of poly).
 Proof. exact @poly_triangles_fan. Qed.
 Print Assumptions C11_polygon_is_fan.
+
+(* indices, vertices, normals, normal_indices, texcoords and texcoord_indices of a polygon are all cut
+   with the same three subscripts: data and indices of every input stay on the same corner *)
+Theorem C11_polygon_arrays_same_corners :
+  poly_vertices = poly_indices /\ poly_normals = poly_indices /\ poly_normal_indices = poly_indices /\
+  poly_texcoords = poly_indices /\ poly_texcoord_indices = poly_indices.
+Proof. exact polygon_arrays_same. Qed.
+Print Assumptions C11_polygon_arrays_same_corners.
+
+(* ---- the bound path: a BoundTriangleSet carries the very index attributes of the unbound set,
+   and BoundPolylist.triangleset() is the bound unbound triangulation *)
+Theorem C11_bound_keeps_rows : forall (V : Type) (unbound : tsfield -> V) f,
+  bound_attr unbound f = Some (unbound f).
+Proof. exact @bound_attr_copy. Qed.
+Print Assumptions C11_bound_keeps_rows.
+
+Theorem C11_bound_triangulate_fan : forall (A : Type) vc (rows : list A),
+  length rows = total vc -> bound_triangleset vc rows = Ok (Some (tri_spec vc rows)).
+Proof. intros A vc rows H. rewrite bound_triangleset_eq, triangleset_spec by exact H. reflexivity. Qed.
+Print Assumptions C11_bound_triangulate_fan.
 
 (* <polygons>: the vcounts derived from the <p> lengths cut the concatenated index back into
    exactly the rows of each <p>, so the triangulation theorems apply per <p> *)
@@ -121,7 +149,7 @@ Example C11_fan_nonvacuous :
 Proof. vm_compute. repeat split; reflexivity. Qed.
 
 Example C11_multi_p_nonvacuous :
-  load_expand KStrips 2 [[1; 2; 3; 4; 5; 6; 7; 8]; []; [9; 10]; [11; 12; 13; 14; 15; 16]]%N
+  load_expand KStrips 1 [[1; 2; 3; 4; 5; 6; 7; 8]; []; [9; 10]; [11; 12; 13; 14; 15; 16]]%N
   = Ok [([1; 2], [3; 4], [5; 6]); ([5; 6], [3; 4], [7; 8]); ([11; 12], [13; 14], [15; 16])]%N.
 Proof. vm_compute. reflexivity. Qed.
 
@@ -136,5 +164,7 @@ Example C11_triangulate_nonvacuous :
   total vc = 15 /\
   triangleset vc (seq 100 15)
   = Ok [(100, 101, 102); (100, 102, 103); (105, 106, 107); (105, 107, 108); (105, 108, 109); (112, 113, 114)]
-  /\ triangleset [0; 1] [5%N] = Ok [] /\ triangleset [0] (@nil N) = Ok [].
+  /\ triangleset [0; 1] [5%N] = Ok [] /\ triangleset [0] (@nil N) = Ok []
+  /\ omapM poly_triangles (polygon_rows [4; 1; 3] (seq 0 8)) = Ok [[(0, 1, 2); (0, 2, 3)]; []; [(5, 6, 7)]]
+  /\ bound_triangleset [4] (seq 0 4) = Ok (Some [(0, 1, 2); (0, 2, 3)]).
 Proof. vm_compute. repeat split; reflexivity. Qed.
